@@ -128,8 +128,10 @@ def generate(seed: int, config: str, tier: str) -> Dict[str, Any]:
                     p, k = frng.choice(ss)
                     faults["storeerr"].append([p, k, frng.choice(["store", "store", "key", "index", "type", "value"])])
         if "cancel" in kinds:
-            for _ in range(frng.choice([1, 1, 2, 3])):
+            for _ in range(frng.choice([0, 1, 1, 2])):
                 faults["cancels"].append([frng.randrange(1, 6 + 4 * n_jobs), frng.randrange(len(clients))])
+            # plus cancellations decided by the scheduler while a job is in flight (lands inside operations)
+            faults["cancel_budget"] = frng.choice([1, 1, 2, 3])
     plan = {"docs": docs, "wraps": wraps, "ctx": ctxdoc, "queries": queries, "clients": clients, "faults": faults}
     knobs = {"p_sched": rng.choice([0.2, 0.4, 0.6]), "p_get": rng.choice([0.2, 0.5, 0.8]),
              "filter_caching": rng.random() < 0.7, "well_typed": rng.random() < 0.8}
@@ -284,7 +286,7 @@ def execute(spec: Dict[str, Any], ctx: Ctx) -> None:
     for n, (ci, ji, job) in enumerate(jobs_flat[:2]):
         _stage_states(ctx, compiled[job["q"] % len(texts)], docs_w[job["d"] % len(docs_w)], fctx)
     total_work = sum(refs[rkey(j)].fetches + len(refs[rkey(j)].ms) + 1 for _, _, j in jobs_flat)
-    n_cancels = len(plan["faults"]["cancels"])
+    n_cancels = len(plan["faults"]["cancels"]) + int(plan["faults"].get("cancel_budget", 0))
     max_steps = 400 + 60 * total_work * (1 + n_cancels)
 
     # ---------------------------------------------------------------- concurrent phase
@@ -297,7 +299,24 @@ def execute(spec: Dict[str, Any], ctx: Ctx) -> None:
         cancels.setdefault(int(step), []).append(int(c) % len(plan["clients"]))
         ctx.count("fault.cancel.configured")
 
+    budget = {"n": int(plan["faults"].get("cancel_budget", 0))}
+    for _ in range(budget["n"]):
+        ctx.count("fault.cancel.configured")
+
     def on_step(lp: SimLoop) -> None:
+        if budget["n"] > 0:
+            active = [c for c in range(len(tasks)) if in_job[c] and not tasks[c].done()]
+            if active:
+                k = ctx.choose(1 + len(active), "cancel", 0.12)
+                if k:
+                    budget["n"] -= 1
+                    c = active[k - 1]
+                    tasks[c].cancel()
+                    state["cancel_fired"] += 1
+                    ctx.count("fault.cancel.fired")
+                    if store.in_get:
+                        ctx.count("probe.cancel_landed_in_getter")
+                    ctx.log.add("cancel", c, "t", lp.time())
         cs = cancels.get(lp.steps)
         if not cs:
             return
@@ -494,6 +513,11 @@ def shrink_plan(plan: Dict[str, Any]) -> Iterator[Dict[str, Any]]:
             p["faults"] = dict(plan["faults"])
             p["faults"][key] = fl
             yield p
+    if plan["faults"].get("cancel_budget"):
+        p = dict(plan)
+        p["faults"] = dict(plan["faults"])
+        p["faults"]["cancel_budget"] = 0
+        yield p
     for cl in ddmin_list(plan["clients"]):
         if cl:
             p = dict(plan)
